@@ -24,18 +24,18 @@ META = {
                  'WriteTo script and callers + differential stress of the real builder API under the race detector (N builders x M callers, shared pages), '
                  'strace of the mprotect script, source lock-skeleton comparison',
     'level': 'proof',
-    'level_text': 'Partial proof: for every schedule, every program over pairwise disjoint targets and every page layout, the model has mutual exclusion of '
+    'level_text': 'Partial proof: from every quiet state (steady mocks already in place), for every schedule, every program over pairwise disjoint targets and every page layout, the model has mutual exclusion of '
                   'patchesLock and memoryAccessLock (so the three-phase mprotect/copy/mprotect script of one thread never interleaves with another, even on a '
                   'shared page), every listed shared access is inside its lock, every page keeps x in every intermediate state, every call of a steadily '
                   'mocked function returns the mocked result (incl. callbacks calling the origin placeholder), other threads never change a thread\'s own '
-                  'targets, each thread\'s targets and control state evolve exactly as in a run in which it alone is scheduled (isolation by solo simulation), and '
+                  'targets, each thread\'s targets, control state and the results of its own calls evolve exactly as in a run in which it alone is scheduled (isolation by solo simulation), the steady builder\'s targets are restored by its final reset (three-phase theorem), and '
                   'for every program of the generator\'s class (any builder operation sequence ending in reset; callers) all mocked functions are pristine and both locks free '
                   'at quiescence in every interleaving (quiescent_restored_builders, sequential part proved by a micro-step invariant). '
                   'The model is tied to the code by differential runs of the real API under -race.',
     'level_note': 'Partial because: (1) data races on fields the model does not list are only covered by the Go race detector during the stress runs (a test); '
                   '(2) torn instruction fetch during the 13-byte entry write and CPU cross-modifying-code behaviour cannot be exhibited by the model - only '
                   'crash-free stress (a test); (3) the 13-byte copy is one model step: Props states what that abstracts (CopyIsAtomic is refuted at byte level by copy_is_not_atomic_at_byte_level; '
-                  'write_excludes_calls proves no modelled thread calls a location while any thread is inside its WriteTo script). internal/patch exports Unpatch/UnpatchInstanceMethod/UnpatchAll which '
+                  'write_excludes_calls proves no modelled thread calls a location while any thread is inside its WriteTo script). Generic functions are not exercised (same-GC-shape sharing is known finding F28-c02-gcshape; under -race GetInnerFunc of goom resolves racefuncenter). internal/patch exports Unpatch/UnpatchInstanceMethod/UnpatchAll which '
                   'touch the patch table WITHOUT patchesLock; they are unreachable from the builder API (verified by grep on every run) and therefore outside '
                   'the property. Trusted: Lean kernel, probe + canonicalisation, kernel mprotect semantics.',
 }
@@ -92,9 +92,10 @@ def gen_round(rng, tier, big=False):
             cnt = 1 + rng.below(per)
             own[f'B{i + 1}'] = pool[ns + i * per: ns + i * per + cnt]
     steady = [f for f in own.get('S', [])]
+    sbyname = rng.below(3) == 0
     for f in steady:
-        kind = rng.choice(['ret', 'cb', 'cbo', 'cbo', 'tab', 'tab'])
-        segs.append(f'S mock {f} {kind} {1 + rng.below(90)} {1 if kind == "cbo" else 0}')
+        kind = rng.choice(['ret', 'cb', 'cbo', 'cbo', 'tab', 'tab', 'tin'])
+        segs.append(f'S {"mockn" if sbyname else "mock"} {f} {kind} {1 + rng.below(90)} {1 if kind == "cbo" else 0}')
     nvar = 0
     if nc >= 2 and rng.below(5) < 3:   # variadic steady targets with When tables keyed on the variadic elements
         r0, cntv = rng.below(NV), 1 + rng.below(3)
@@ -103,28 +104,42 @@ def gen_round(rng, tier, big=False):
         for f in vs:
             segs.append(f'S mock {f} tab {100 + rng.below(800)} 0')
         steady = steady + vs
-    kinds = {'mock': 0, 'chk': 0, 'reset': 0, 'ret': 0, 'tab': 0, 'cb': 0, 'cbo': 0, 'restub': 0}
+    kinds = {'mock': 0, 'mock_by_name': 0, 'chk': 0, 'reset': 0, 'ret': 0, 'tab': 0, 'tin': 0, 'cb': 0, 'cbo': 0, 'restub': 0,
+             'ext(Matches)': 0, 'shared_placeholder_builders': 0}
     for i in range(nb):
         name = f'B{i + 1}'
         tg = own.get(name, [])
         if not tg:
             continue
+        byname = rng.below(3) == 0            # this builder addresses its targets BY NAME (ExportFunc(name).As(sig))
+        shareplh = len(tg) >= 2 and rng.below(3) == 0   # all its targets use ONE origin placeholder variable, one after the other
+        if shareplh:
+            kinds['shared_placeholder_builders'] += 1
+            for f in tg:
+                segs.append(f'P {f} {tg[0]}')
+        mk = 'mockn' if byname else 'mock'
         nops = 2 + rng.below(10 if tier == 'quick' else 24)
-        had_ret, origin, mocked = set(), set(), set()
+        had_ret, origin, mocked, plain = set(), set(), set(), set()
         for _ in range(nops):
-            c = rng.below(10)
+            c = rng.below(11)
             if c < 6:
                 f = rng.choice(tg)
-                kind = rng.choice(['cb', 'cbo'] if f in had_ret else ['ret', 'tab', 'cb', 'cbo'])
-                if kind in ('ret', 'tab'):
+                if shareplh and mocked:       # a shared placeholder holds one relocated function at a time
+                    f = sorted(mocked)[0]
+                kind = rng.choice(['cb', 'cbo'] if f in had_ret else ['ret', 'ret', 'tab', 'tin', 'cb', 'cbo'])
+                if kind in ('ret', 'tab', 'tin'):
                     had_ret.add(f)
+                plain.discard(f)
+                if kind == 'ret':
+                    plain.add(f)
                 if kind == 'cbo':
                     origin.add(f)
                 if f in mocked:
                     kinds['restub'] += 1
                 mocked.add(f)
-                segs.append(f'{name} mock {f} {kind} {1 + rng.below(90)} {1 if f in origin else 0}')
+                segs.append(f'{name} {mk} {f} {kind} {1 + rng.below(90)} {1 if f in origin else 0}')
                 kinds['mock'] += 1
+                kinds['mock_by_name'] += 1 if byname else 0
                 kinds[kind] += 1
                 if rng.below(3):
                     segs.append(f'{name} chk')
@@ -132,10 +147,19 @@ def gen_round(rng, tier, big=False):
             elif c < 8:
                 segs.append(f'{name} chk')
                 kinds['chk'] += 1
+            elif c < 9:
+                if plain:                     # re-stub WITHOUT re-applying: When.Matches(...) on the existing plain Return mock
+                    f = sorted(plain)[rng.below(len(plain))]
+                    plain.discard(f)
+                    segs.append(f'{name} chk')   # the plain mock is called at least once before it is extended
+                    segs.append(f'{name} ext {f}')
+                    segs.append(f'{name} chk')
+                    kinds['ext(Matches)'] += 1
+                    kinds['chk'] += 2
             else:
                 segs.append(f'{name} reset')
                 kinds['reset'] += 1
-                had_ret, origin, mocked = set(), set(), set()
+                had_ret, origin, mocked, plain = set(), set(), set(), set()
                 if rng.below(4) == 0:  # double reset
                     segs.append(f'{name} reset')
                     kinds['reset'] += 1
@@ -172,7 +196,7 @@ def expect(line):
     K = int(hdr.get('K', 1))
     order, prog = [], {}
     for s in segs[1:]:
-        if s[0] == 'N':
+        if s[0] in ('N', 'P'):
             continue
         if s[0] not in prog:
             prog[s[0]] = []
@@ -184,7 +208,7 @@ def expect(line):
         if m is None:
             return a * 7 + f
         kind, v = m
-        return {'ret': v, 'cb': a + v, 'cbo': a * 7 + f + v, 'tab': v + a if a in (1, 2) else v}[kind]
+        return {'ret': v, 'cb': a + v, 'cbo': a * 7 + f + v, 'tab': v + a if a in (1, 2) else v, 'tin': v + 5 if a in (1, 2) else v}[kind]
 
     steady = {}
     for op in prog.get('S', []):
@@ -193,15 +217,18 @@ def expect(line):
     ci = 0
     for name in order:
         if name[0] == 'B':
-            tg = sorted({int(op[1]) for op in prog[name] if op[0] == 'mock'})
+            tg = sorted({int(op[1]) for op in prog[name] if op[0] in ('mock', 'mockn')})
             st, out = {}, []
             for op in prog[name]:
-                if op[0] == 'mock':
+                if op[0] in ('mock', 'mockn'):
                     st[int(op[1])] = (op[2], int(op[3]))
+                elif op[0] == 'ext':          # Matches(1 -> v+1, 2 -> v+2) on a plain Return(v): from now on the table answers
+                    kd, v = st[int(op[1])]
+                    st[int(op[1])] = ('tab', v) if kd == 'ret' else (kd, v)
                 elif op[0] == 'reset':
                     st = {}
                 else:
-                    out += [str(val(st, f, 3)) for f in tg]
+                    out += [str(val(st, f, a)) for f in tg for a in (3, 1)]
             parts.append(f'{name}=[' + ','.join(out) + ']')
         elif name[0] == 'C':
             cnt = {}
@@ -223,7 +250,8 @@ def oracle(line, obs):
     kv = dict(p.split('=', 1) for p in extra.split() if '=' in p)
     races = int(kv.get('races', '0') or 0)
     if main.startswith('crash:') or main.startswith('timeout'):
-        return f'process {main.split()[0]} during concurrent mock/reset/call ({kv.get("err", "")})', 'crash'
+        what = 'hang (round killed after 600 s, twice in a row)' if main.startswith('timeout') else main.split()[0]
+        return f'process {what} during concurrent mock/reset/call ({kv.get("err", "")})', 'crash'
     if main == 'bad-op':
         return None
     want = expect(line)
@@ -256,10 +284,12 @@ def execute(ops, tag='c11', binary=None):
     open(ops_path, 'w').write('\n'.join(ops) + '\n')
     binary = binary or build_probe()
     outp = os.path.join(C.BUILD, f'{tag}.impl')
-    rc, log = C.run_probe(binary, 'TestVerifC11', ops_path, outp, timeout=3000)
+    rc, log = C.run_probe(binary, 'TestVerifC11', ops_path, outp, timeout=6 * 3600, env={'GOOM_DEBUG': ''})
     if rc != 0:
         raise C.Infra(f'C11 probe failed rc={rc}:\n{log[-2000:]}')
     impl = C.read_indexed(outp, len(ops))
+    if any(x is None for x in impl):   # floor: the parent process writes one line per round, whatever happens to the child
+        raise C.Infra(f'C11 probe produced no line for {sum(1 for x in impl if x is None)} of {len(ops)} rounds:\n{log[-1500:]}')
     exe, err = C.build_driver()
     if exe is None:
         return impl, None, err
@@ -267,40 +297,64 @@ def execute(ops, tag='c11', binary=None):
     return impl, model, ''
 
 
+PAGE = os.sysconf('SC_PAGE_SIZE') if hasattr(os, 'sysconf') else 4096
+
+
 def strace_round(binary, line):
-    """Run one round under strace; returns dict(scripts, noexec, interleaved, text_calls) about mprotect calls on the text mapping."""
+    """Run one round under strace; returns dict(scripts, noexec, interleaved, text_calls, two_page_scripts) about mprotect calls on the
+    text mapping, or a string saying why the lane could not run (no strace / ptrace denied / nothing traced): that is NOT a verdict."""
     tr = os.path.join(C.BUILD, 'c11.strace')
+    if os.path.exists(tr):
+        os.remove(tr)
     env = C.goenv({'VERIF_C11_LINE': line, 'GORACE': 'halt_on_error=0 exitcode=0'})
-    p = subprocess.run(['strace', '-f', '-e', 'trace=mprotect', '-o', tr, binary, '-test.run', '^TestVerifC11Child$', '-test.count=1'],
-                       env=env, capture_output=True, text=True, timeout=300, cwd=C.BUILD)
+    env.pop('GOOM_DEBUG', None)
+    try:
+        p = subprocess.run(['strace', '-f', '-e', 'trace=mprotect', '-o', tr, binary, '-test.run', '^TestVerifC11Child$', '-test.count=1'],
+                           env=env, capture_output=True, text=True, timeout=1800, cwd=C.BUILD)
+    except (OSError, subprocess.TimeoutExpired) as e:
+        return f'unavailable: {type(e).__name__}'
     m = re.search(r'text=([0-9a-f]+)-([0-9a-f]+)', p.stdout)
-    if not m:
-        return None
+    if not m or not os.path.exists(tr):
+        return 'unavailable: no observation under strace (ptrace denied?) ' + (p.stderr or '')[-120:].replace('\n', ' ')
     lo, hi = int(m.group(1), 16), int(m.group(2), 16)
-    W, scripts, noexec, inter, n = [], 0, 0, 0, 0
-    for l in open(tr, errors='replace'):
-        mm = re.search(r'mprotect\((0x[0-9a-f]+), (\d+), ([A-Z_|]+)(\)\s+= 0| <unfinished)', l)  # a failed call changes nothing
-        if not mm:
-            continue
-        a = int(mm.group(1), 16)
+    W, scripts, noexec, inter, n, two = [], 0, 0, 0, 0, 0
+    pending = {}
+
+    def apply(a, prot):
+        nonlocal scripts, noexec, inter, n, two
         if not (lo <= a < hi):
-            continue
+            return
         n += 1
-        prot = mm.group(3)
         if 'PROT_EXEC' not in prot:
             noexec += 1
         if 'PROT_WRITE' in prot:
             if not W:
                 scripts += 1
-            elif len(W) >= 2 or abs(W[-1] - a) != 4096:
+            elif len(W) >= 2 or abs(W[-1] - a) != PAGE:
                 inter += 1
-            W.append(a)
-        else:
-            if a in W:
-                W.remove(a)
             else:
-                inter += 1
-    return {'scripts': scripts, 'noexec': noexec, 'interleaved': inter + len(W), 'text_calls': n, 'obs': (re.search(r'OBS (.*)', p.stdout) or [None, None])[1]}
+                two += 1
+            W.append(a)
+        elif a in W:
+            W.remove(a)
+        else:
+            inter += 1
+
+    for l in open(tr, errors='replace'):
+        pid = l.split(None, 1)[0]
+        mm = re.search(r'mprotect\((0x[0-9a-f]+), (\d+), ([A-Z_|]+)', l)
+        if mm and '<unfinished' in l:
+            pending[pid] = (int(mm.group(1), 16), mm.group(3))
+        elif mm and re.search(r'\)\s+= 0', l):
+            apply(int(mm.group(1), 16), mm.group(3))
+        elif 'mprotect resumed' in l and pid in pending:
+            a, prot = pending.pop(pid)
+            if re.search(r'\)\s+= 0', l):      # a failed call changes nothing
+                apply(a, prot)
+    if n == 0:
+        return 'unavailable: strace recorded no mprotect call on the text mapping'
+    return {'scripts': scripts, 'noexec': noexec, 'interleaved': inter + len(W), 'text_calls': n, 'two_page_scripts': two,
+            'obs': (re.search(r'OBS (.*)', p.stdout) or [None, None])[1]}
 
 
 UNLOCKED_EXPORTS = ('UnpatchAll', 'UnpatchInstanceMethod', 'Unpatch')
@@ -311,7 +365,8 @@ def unlocked_exports_reachable():
     the property only as long as nothing in the builder API calls them."""
     hits = []
     for root, _, files in os.walk(C.REPO):
-        if '/.git' in root or '/test' in root or '/tool' in root:
+        rel = os.path.relpath(root, C.REPO)
+        if rel.split(os.sep)[0] in ('.git', 'test', 'tool', 'example', 'examples', 'docs', 'doc'):
             continue
         for f in files:
             if f.endswith('.go') and not f.endswith('_test.go'):
@@ -350,7 +405,7 @@ def run(tier):
     rng = C.Rng(C.seed()).fork('C11')
     proof = C.prove('C11', leanchecker=(tier == 'thorough'))
     binary = build_probe()
-    nrounds = 26 if tier == 'quick' else 700
+    nrounds = 26 if tier == 'quick' else 600
     ops, metas = [], []
     for l in corpus():
         ops.append(l)
@@ -380,24 +435,50 @@ def run(tier):
     # 2. correspondence: observation stream, mprotect script under strace, unlocked exports
     mains = [(x.partition(' ## ')[0] if x is not None else None) for x in impl]
     diffs = C.diff_streams(ops, mains, model) if model is not None else []
-    st_line = ops[len(corpus()) + 1] if n_real > len(corpus()) + 1 else ops[0]
-    st = strace_round(binary, st_line)
     wexe, _ = C.build_driver()
-    wr_ops = os.path.join(C.BUILD, 'c11.writes.ops')
-    open(wr_ops, 'w').write(st_line.replace('c11.round', 'c11.writes', 1) + '\n')
-    wmodel = C.run_driver(wexe, wr_ops, os.path.join(C.BUILD, 'c11.writes.model'))[0] if wexe else None
     corr = []
-    if st is None:
-        corr.append('strace lane produced no observation')
-    else:
-        if st['noexec']:
-            out.violation(f'{st["noexec"]} mprotect call(s) on the text mapping without PROT_EXEC (a page of running code lost x)',
-                          {'kind': 'impl-oracle', 'ops': [st_line], 'strace': st}, key='noexec')
-        if st['interleaved']:
+    st_lines = [ops[i] for i in ([0, len(corpus()) - 1, len(corpus()) + 1, len(corpus()) + 2][: 3 if tier == 'quick' else 4]) if i < n_real]
+    st_lines += [ops[i] for i in range(len(corpus()) + 3, min(n_real, len(corpus()) + 3 + (0 if tier == 'quick' else 30)))]
+    st_results, st, wmodel = [], None, None
+    for st_line in st_lines:
+        one = strace_round(binary, st_line)
+        if isinstance(one, str):
+            st_results.append(one)
+            continue
+        wr_ops = os.path.join(C.BUILD, 'c11.writes.ops')
+        open(wr_ops, 'w').write(st_line.replace('c11.round', 'c11.writes', 1) + '\n')
+        wm = C.run_driver(wexe, wr_ops, os.path.join(C.BUILD, 'c11.writes.model'))[0] if wexe else None
+        st, wmodel = one, wm
+        st_results.append({k: v for k, v in one.items() if k != 'obs'} | {'model': wm})
+        if one['noexec']:
+            out.violation(f'{one["noexec"]} mprotect call(s) on the text mapping without PROT_EXEC (a page of running code lost x)',
+                          {'kind': 'impl-oracle', 'ops': [st_line], 'strace': one}, key='noexec')
+        if one['interleaved']:
             out.violation('mprotect calls on the text mapping do not form serial RWX..RX scripts (two WriteTo scripts interleaved, or a page left writable)',
-                          {'kind': 'impl-oracle', 'ops': [st_line], 'strace': st}, key='interleaved')
-        if wmodel != f'copies={st["scripts"]}':
-            corr.append(f'WriteTo scripts under strace: {st["scripts"]}, model: {wmodel}')
+                          {'kind': 'impl-oracle', 'ops': [st_line], 'strace': one}, key='interleaved')
+        # +1: the probe itself performs one page-crossing WriteTo of identical bytes at the start of every round
+        mcop = int(wm.split('=')[1]) if wm and wm.startswith('copies=') else None
+        if mcop is None or one['scripts'] != mcop + 1:
+            corr.append(f'WriteTo scripts under strace: {one["scripts"]}, model: {wm} (+1 for the probe\'s own page-crossing write)')
+        if one['two_page_scripts'] < 1:
+            corr.append('the page-crossing WriteTo of the probe did not produce a two-page mprotect script')
+    st_line = st_lines[0] if st_lines else ops[0]
+    # interleaved model traces: the model on pseudo-random schedules (with lock contention) must give the observation of the
+    # sequential schedule (theorem C11.isolation, executed) — and therefore the implementation's
+    shuf_n = 0
+    if wexe and model is not None:
+        pick = list(range(min(n_real, 10 if tier == 'quick' else 24)))
+        sh_ops = [f'c11.shuffle {C.seed() * 7 + j} ' + ops[i].split(' ', 1)[1] for i in pick for j in (0, 1)]
+        shf = os.path.join(C.BUILD, 'c11.shuffle.ops')
+        open(shf, 'w').write('\n'.join(sh_ops) + '\n')
+        shm = C.run_driver(wexe, shf, os.path.join(C.BUILD, 'c11.shuffle.model'))
+        for n_, i in enumerate(i for i in pick for _ in (0, 1)):
+            shuf_n += 1
+            if shm[n_] != model[i]:
+                corr.append(f'model on an interleaved schedule differs from the sequential schedule on round {i}: {shm[n_][:200]} / {model[i][:200]}')
+                break
+        if shuf_n < 2:
+            raise C.Infra('interleaved-schedule lane ran nothing')
     nskel, skdiff = skeleton_lane(wexe) if wexe else (0, ['driver missing'])
     corr += ['lock skeleton differs — ' + d for d in skdiff]
     reach = unlocked_exports_reachable()
@@ -459,7 +540,7 @@ def run(tier):
             'builder_ops_total': tot('ops'), 'builder_ops_overlapping_another_builder': tot('overlap'),
             'same_page_pairs(target, other used location)': tot('share'), 'targets_whose_13_bytes_cross_a_page': tot('cross'),
             'race_reports': tot('races'), 'text_kb_diffed_per_round': int(ext[0].get('textkb', 0)) if ext else 0,
-            'strace_lane': st and {k: v for k, v in st.items() if k != 'obs'}, 'model_writeTo_scripts': wmodel,
+            'interleaved_model_schedules_compared': shuf_n, 'strace_lane': st_results, 'strace_rounds_traced': sum(1 for x in st_results if isinstance(x, dict)),
             'unlocked_exports_reachable_from_api': reach, 'source_skeletons_compared': nskel, 'source_skeleton_differences': skdiff,
         },
         'samples': [{'op': ops[i][:400], 'impl': (impl[i] or '')[:400], 'model': (model[i] if model else '')[:300]} for i in (0, n_real // 2, n_real - 1, len(ops) - 1)],
